@@ -273,6 +273,8 @@ def make_ks(model, mol, uks, gcfg, mdesc):
     ks.grids.level = gcfg.get("level", 0)
     if gcfg.get("atom_grid"):
         ks.grids.atom_grid = tuple(gcfg["atom_grid"])
+    if gcfg.get("atom_grid_dict"):
+        ks.grids.atom_grid = {k_: tuple(v_) for k_, v_ in gcfg["atom_grid_dict"].items()}
     if not gcfg.get("prune", True):
         ks.grids.prune = None
     nldf_init, sdmx_init, kw = make_inits(model, mdesc)
@@ -1449,8 +1451,15 @@ def gen_ks_history(seed):
         # number of features), put on the same Kohn-Sham object with set_mlxc
         models.append(dict(model, seed=rng.below(10**6)))
     for _ in range(rng.randint(3, 7)):
-        c = rng.weighted([("veff", 5), ("scf", 2), ("reset", 4), ("level", 1), ("displace", 2), ("grad", 2), ("analyze", 2)] + ([("swap", 4)] if len(models) > 1 else []))
-        if c == "swap":
+        c = rng.weighted([("veff", 5), ("scf", 2), ("reset", 4), ("level", 1), ("displace", 2), ("grad", 2), ("analyze", 2), ("agrid", 2)] + ([("swap", 4)] if len(models) > 1 else []))
+        if c == "agrid":
+            # the per-element grid table of the object's grids is edited IN PLACE (an item of the
+            # dictionary the grids object already holds - PySCF's default is a dictionary), then
+            # the object is reset, as PySCF asks for after such an edit
+            ops.append({"op": "agrid", "atom": rng.below(3), "val": [rng.choice([20, 30, 40]), rng.choice([50, 86, 110])]})
+            if rng.chance(0.7):
+                ops.append({"op": "veff", "dm": rng.below(3)})
+        elif c == "swap":
             # the caller may or may not hand over initializer objects with the new functional
             ops.append({"op": "swap", "to": rng.below(2), "explicit_init": bool(rng.chance(0.4))})
             if rng.chance(0.7):
@@ -1557,6 +1566,7 @@ def exec_ks_history(hist, rp):
     set_perturb(hist["perturb"])
     level = 0
     cur = 0
+    agrid = {}  # per-element grid sizes the user has put into the object's table so far
     model = U.model(0)
     ks = make_ks(model, U.mol(0), uks, {"level": 0}, mdesc)
     ks.build()
@@ -1575,6 +1585,16 @@ def exec_ks_history(hist, rp):
                 level = op["level"]
                 ks.grids.level = level
                 ks.reset(U.mol(cur))
+                continue
+            if c == "agrid":
+                m_ = U.mol(cur)
+                sym = m_.atom_symbol(op["atom"] % m_.natm)
+                if not isinstance(ks.grids.atom_grid, dict):
+                    ks.grids.atom_grid = {}
+                ks.grids.atom_grid[sym] = (int(op["val"][0]), int(op["val"][1]))  # in place
+                agrid[sym] = [int(op["val"][0]), int(op["val"][1])]
+                ks.reset(m_)
+                stats["grid_tables_edited_in_place_then_reset"] += 1
                 continue
             if c == "swap":
                 # another functional on the same Kohn-Sham object (public set_mlxc), with or
@@ -1616,7 +1636,7 @@ def exec_ks_history(hist, rp):
                 try:
                     set_perturb(hist["perturb"] ^ 0x5A)
                     mol_f = U.mol(cur, fresh=True)
-                    ks_f = make_ks(U.fresh_model(curm), mol_f, uks, {"level": level}, mdesc)
+                    ks_f = make_ks(U.fresh_model(curm), mol_f, uks, {"level": level, "atom_grid_dict": dict(agrid)}, mdesc)
                     ks_f.build()
                     do(ks_f, mol_f, op, cur)
                 except Exception as ex2:
@@ -1643,7 +1663,7 @@ def exec_ks_history(hist, rp):
         # fresh objects for the same request
         set_perturb(hist["perturb"] ^ 0x5A)
         mol_f = U.mol(cur, fresh=True)
-        ks_f = make_ks(U.fresh_model(curm), mol_f, uks, {"level": level}, mdesc)
+        ks_f = make_ks(U.fresh_model(curm), mol_f, uks, {"level": level, "atom_grid_dict": dict(agrid)}, mdesc)
         ks_f.build()
         ref, _ = do(ks_f, mol_f, op, cur)
         set_perturb(hist["perturb"])
